@@ -79,6 +79,13 @@ def all_cells():
                         if order != "std" and cls not in ("app", "logon", "hb"):
                             continue
                         cells.append(("B", role, st, cls, d, order))
+    # B': the Logout that states the reason cannot be written (the peer is already gone): the connection must still end disconnected
+    for role in ("acceptor", "initiator"):
+        for st in ("active", "awaiting"):
+            for cls in ("app", "hb", "tr"):
+                for d in ("seq-too-low", "seq-missing", "sender-wrong", "target-missing"):
+                    for err in ("reset", "pipe"):
+                        cells.append(("B-drainfail", role, st, cls, d, err))
     # C: other disconnect causes, then continuation
     for role in ("acceptor", "initiator"):
         for st in ("active", "awaiting"):
@@ -338,6 +345,41 @@ async def cell_B(acc, clock, cell, cid):
     await continuation(acc, clock, ep, j, peer, cid, w, f"B/{d}", same_read=(fr, cell))
 
 
+async def cell_B_drainfail(acc, clock, cell, cid):
+    from asyncfix.connection import ConnectionState as CS
+    from vf.sim.net import settle, advance
+    _, role, st, cls, d, err = cell
+    b = await build(clock, role, st)
+    if b is None:
+        acc.add("start_state_not_reached")
+        return
+    ep, j, peer = b
+    o = Obs(ep, j)
+    E_ = o.live_in
+    fr = defect_frame(d, cls, E_, E_, "std")
+    if fr is None:
+        return
+    ep.vf_writer.drain_error = ConnectionResetError("peer gone") if err == "reset" else BrokenPipeError("peer gone")
+    tail = mkframe("D", E_, "PEER", "ME", [(11, "same1")]) + mkframe("D", E_ + 1, "PEER", "ME", [(11, "same2")])
+    ep.vf_reader.feed(fr + tail)
+    await settle()
+    ep.vf_reader.feed_eof()          # a peer that is gone also ends the stream
+    await advance(1.5)
+    acc.oracle("B:integrity")
+    acc.oracle("C:disconnect-once")
+    n = Obs(ep, j)
+    w = {"cell": cell, "frame": fixwire.show(fr), "events": ep.ev[o.ev:], "tap": [fixwire.show(x)[:100] for x in ep.vf_tap.frames(o.tap)],
+         "state": [o.state.name, n.state.name], "in": [o.live_in, n.live_in, o.st_in, n.st_in], "swallowed": ep.vf_log.exceptions[-2:]}
+    if n.rx != o.rx or (n.live_in, n.st_in) != (o.live_in, o.st_in):
+        return acc.violation("logout-write-fails:frames-processed-afterwards", f"{cls}/{d}: the Logout could not be written; afterwards rx {o.rx}->{n.rx}, inbound counter {o.live_in}->{n.live_in}", w, cid)
+    if n.state > CS.DISCONNECTED_BROKEN_CONN:
+        return acc.violation("logout-write-fails:not-disconnected", f"{cls}/{d}: state {n.state.name} after the Logout write failed and the stream ended", w, cid)
+    if n.disc != o.disc + 1:
+        return acc.violation("logout-write-fails:on_disconnect-count", f"on_disconnect called {n.disc - o.disc} times", w, cid)
+    ep.vf_writer.drain_error = None
+    await continuation(acc, clock, ep, j, peer, cid, w, f"B-drainfail/{d}")
+
+
 async def continuation(acc, clock, ep, j, peer, cid, w, label, same_read=None):
     """After a disconnect: valid frames arriving later on the old stream, and application sends, have no effect."""
     from asyncfix import FIXMessage
@@ -502,6 +544,8 @@ def run_shard(spec, acc):
                     await cell_A_in(acc, clock, cell, cid)
                 elif cell[0] == "A-send":
                     await cell_A_send(acc, clock, cell, cid)
+                elif cell[0] == "B-drainfail":
+                    await cell_B_drainfail(acc, clock, cell, cid)
                 elif cell[0] == "B":
                     await cell_B(acc, clock, cell, cid)
                     if acc.want(cid):
